@@ -20,6 +20,19 @@ def main():
         if not with_neg and has_neg(s):
             continue
         schemas.append(s)
+    else_directed = [
+        # open-ended repeats before and after a repeat whose minimum is above the generator's default cap, long strings,
+        # long lists: anything a generator might remember from one fake() to the next shows up as a difference between the
+        # first pass (cold process) and the second
+        schema.str.regex(r"a*b*c*d*e*f*g*h*"), schema.str.regex(r"(x|y)+\d*[ab]{2,}k*"), schema.str.regex(r"\w*-\d+-[a-c]*"),
+        schema.str.regex(r"z{40,}"), schema.str.regex(r"(ab){35,}c*"),
+        schema.str.regex(r"a*b*c*d*e*f*g*h*"), schema.str.regex(r"p+q+r+s+t+u+v+w+"),
+        schema.str.len(50, ...), schema.str.len(0, 3), schema.list(schema.int).len(40, ...), schema.list(schema.int),
+        schema.str.alphabet("xy").len(45, ...), schema.str.alphabet("xy"), schema.int.min(2 ** 70), schema.int,
+        schema.float.min(1e30), schema.float, schema.str.contains("q" * 40), schema.str.contains("q"),
+    ]
+    if not with_neg:
+        schemas = else_directed[:3] + schemas[: n // 2] + else_directed[3:] + schemas[n // 2:]
     if with_neg:
         schemas = [schema.str.regex(r"[^a]{6}"), schema.str.regex(r"x[^0-9a-z]+"), schema.list(schema.str.regex(r"[^\w]")).len(3)]
     out = {"schemas": [repr(s) for s in schemas], "runs": {}}
